@@ -6,7 +6,7 @@ mkdir -p "$V/build"
 echo "== forbidden constructs (comments included; expect only prose hits)"
 grep -rnE 'Admitted|\badmit\b|Axiom|Parameter |Conjecture|Unset Guard|bypass_check|native_compute|type-in-type|Admit Obligations' --include=*.v "$V/coq" | grep -v "^$V/coq/gen/" || echo "none"
 echo "== clean build"
-flock "$V/.coq.lock" sh -c 'cd "$0/coq" && find Common C[0-9][0-9] -name "*.vo" -o -name "*.vok" -o -name "*.vos" -o -name "*.glob" | xargs rm -f; sh mk_coqproject.sh && timeout 7200 make -j16 > "$0/build/stranger_make.log" 2>&1; echo "make rc=$?"' "$V"
+python3 "$V/driver/lockall.py" sh -c 'cd "$0/coq" && find Common C[0-9][0-9] -name "*.vo" -o -name "*.vok" -o -name "*.vos" -o -name "*.glob" | xargs rm -f; sh mk_coqproject.sh && timeout 7200 make -j16 > "$0/build/stranger_make.log" 2>&1; echo "make rc=$?"' "$V"
 echo "== Print Assumptions summary"
 echo "closed: $(grep -c 'Closed under the global context' "$V/build/stranger_make.log")  axioms-blocks: $(grep -c '^Axioms:' "$V/build/stranger_make.log")"
 grep -A3 '^Axioms:' "$V/build/stranger_make.log" | head -20
